@@ -202,11 +202,29 @@ def rule_b(ctx):
                 dec, container, ft, lookup.get(ft)))
         ud = router.lookup(unkdec)
         slot = None
+        wiped = None
         if ud is not None:
             for n in ast.walk(ud.node):
-                if isinstance(n, ast.Assign) and isinstance(n.targets[0], ast.Attribute) and \
-                        '_unknown' in ast.unparse(n.targets[0]):
+                if not (isinstance(n, ast.Assign) and isinstance(n.targets[0], ast.Attribute)):
+                    continue
+                tgt = ast.unparse(n.targets[0])
+                if '_unknown.' in tgt:
+                    # self._unknown.<slot> = RouteInfo(function)
                     slot = n.targets[0].attr
+                elif tgt.endswith('_unknown') and isinstance(n.value, ast.Call) and n.value.keywords:
+                    # the record replaced as a whole: dataclasses.replace(self._unknown, <slot>=...) keeps the other
+                    # slots, a fresh Handlers(<slot>=...) resets them
+                    callee = ast.unparse(n.value.func).split('.')[-1]
+                    kws = [k.arg for k in n.value.keywords if k.arg]
+                    if len(kws) == 1:
+                        slot = kws[0]
+                    keeps = callee == 'replace' and n.value.args and '_unknown' in ast.unparse(n.value.args[0])
+                    if not keeps:
+                        wiped = callee
+        if wiped is not None:
+            problems.append('@%s replaces the whole record of unknown-route handlers by a new %s(...): registering this '
+                            'handler discards the unknown-route handlers of the other interaction types' % (
+                                unkdec, wiped))
         if slot is None:
             problems.append('decorator %s() does not fill an unknown-route slot' % unkdec)
         elif unk.get(ft) != slot:
